@@ -200,6 +200,14 @@ func execDecode(desc string) string {
 func execSecret(desc string) string {
 	v, _ := hx.KV(desc, "cfg")
 	cfg := hx.UnHex(v)
+	if e, _ := hx.KV(desc, "cfgempty"); e == "1" { // Config.CookieSecret = []byte{}: not nil, but no secret either
+		if len(cfg) != 0 {
+			return "badcfg"
+		}
+		cfg = []byte{}
+	} else if len(cfg) == 0 {
+		cfg = nil
+	}
 	n := hx.KVInt(desc, "n")
 	calls := hx.KVInt(desc, "calls")
 	shared := &dtlcp.Config{CookieSecret: cfg}
@@ -508,6 +516,14 @@ func mkAddr(kind byte, text string, portDelta int) (net.Addr, bool) {
 func execServer(desc string) string {
 	v, _ := hx.KV(desc, "cfg")
 	cfgSecret := hx.UnHex(v)
+	if e, _ := hx.KV(desc, "cfgempty"); e == "1" { // Config.CookieSecret = []byte{}: not nil, but no secret either
+		if len(cfgSecret) != 0 {
+			return "badcfg"
+		}
+		cfgSecret = []byte{}
+	} else if len(cfgSecret) == 0 {
+		cfgSecret = nil
+	}
 	ps, _ := hx.KV(desc, "peers")
 	pk, havePk := hx.KV(desc, "pk")
 	if !havePk {
@@ -643,6 +659,9 @@ func execServer(desc string) string {
 		if len(p) != 5 && len(p) != 6 {
 			return "badstep=" + st
 		}
+		if strings.HasPrefix(p[4], "F") && len(p) != 5 {
+			return "badstep=" + st
+		}
 		pack, perRecord := 1, false
 		if len(p) == 6 {
 			perRecord = strings.HasSuffix(p[5], "r")
@@ -680,6 +699,16 @@ func execServer(desc string) string {
 			} else {
 				cookie = bytes.Repeat([]byte{0x5c}, 32)
 			}
+		case p[2] == "e":
+			// forged without ever seeing a HelloVerifyRequest: the cookie for this very address and
+			// hello under the EMPTY key (what a server that took an empty Config.CookieSecret for a
+			// secret would issue)
+			b := hellos[hi].body(nil, nil)
+			ok, _, params := dtlcp.VerifParseClientHello(hsMsg(1, len(b), 0, 0, b))
+			if !ok {
+				return "badstep=" + st
+			}
+			cookie = dtlcp.VerifGenerateCookie([]byte{}, peers[ci].String(), params)
 		case p[2][0] == 'g':
 			// forged without ever seeing a HelloVerifyRequest: the cookie for this very address and
 			// hello under a guessed secret = the first n bytes of the connection's random stream, zeros
@@ -710,6 +739,62 @@ func execServer(desc string) string {
 			from = strAddr("203.0.113.9:999")
 		}
 		body := hellos[hi].body(cookie, nil)
+		// absorb: what the server sent since `before` (types, sizes, alerts, accepted?); remembers
+		// the cookies of HelloVerifyRequests
+		absorb := func(before int) (types, sizes []int, alerts int, accepted bool) {
+			for _, d := range sc.sentFrom(before) {
+				t, a := parseDatagram(d)
+				types = append(types, t...)
+				alerts += a
+				sizes = append(sizes, len(d))
+				for _, x := range t {
+					if x == 2 {
+						accepted = true
+					}
+				}
+				if len(t) == 1 && t[0] == 3 && len(d) >= 13+12+3 {
+					cl := int(d[13+12+2])
+					if 13+12+3+cl <= len(d) {
+						cookies = append(cookies, append([]byte(nil), d[13+12+3:13+12+3+cl]...))
+					}
+				}
+			}
+			return
+		}
+		if strings.HasPrefix(p[4], "F") {
+			// the hello as a given sequence of fragments <off>+<len> (any order, repeats, overlaps,
+			// fragments after completion), all with the message_seq of this hello, one record and one
+			// datagram each; the server's reaction is observed after EVERY datagram
+			var rs []string
+			for _, f := range strings.Split(p[4][1:], ".") {
+				q := strings.Split(f, "+")
+				if len(q) != 2 {
+					return "badstep=" + st
+				}
+				off, e1 := strconv.Atoi(q[0])
+				ln, e2 := strconv.Atoi(q[1])
+				if e1 != nil || e2 != nil || off+ln > len(body) {
+					return "badstep=" + st
+				}
+				d := record(22, seqs[ci], hsMsg(1, len(body), msgSeqs[ci], off, body[off:off+ln]))
+				seqs[ci]++
+				before := sc.nSent()
+				sc.deliver(d, from)
+				sc.settle()
+				types, sizes, alerts, accepted := absorb(before)
+				k := atomic.LoadInt64(&keyOps)
+				if accepted {
+					rs = append(rs, "acc")
+					flight = fmt.Sprintf("%s/%d", joinInts(types), k)
+					break
+				}
+				cbBefore = atomic.LoadInt64(&cbCalls)
+				rs = append(rs, fmt.Sprintf("%d/%s/%s/%d/%d/%d", len(sizes), joinInts(types), joinInts(sizes), alerts, len(d), k))
+			}
+			msgSeqs[ci]++
+			outs = append(outs, strings.Join(rs, "|"))
+			continue
+		}
 		before := sc.nSent()
 		req := 0
 		// split the body into `frags` fragments, one record and one datagram each
@@ -752,27 +837,7 @@ func execServer(desc string) string {
 		}
 		msgSeqs[ci]++
 		sc.settle()
-		var types, sizes []int
-		alerts := 0
-		accepted := false
-		for _, d := range sc.sentFrom(before) {
-			t, a := parseDatagram(d)
-			types = append(types, t...)
-			alerts += a
-			sizes = append(sizes, len(d))
-			for _, x := range t {
-				if x == 2 {
-					accepted = true
-				}
-			}
-			// remember cookies of HelloVerifyRequests
-			if len(t) == 1 && t[0] == 3 && len(d) >= 13+12+3 {
-				cl := int(d[13+12+2])
-				if 13+12+3+cl <= len(d) {
-					cookies = append(cookies, append([]byte(nil), d[13+12+3:13+12+3+cl]...))
-				}
-			}
-		}
+		types, sizes, alerts, accepted := absorb(before)
 		k := atomic.LoadInt64(&keyOps)
 		if !accepted {
 			cbBefore = atomic.LoadInt64(&cbCalls)
@@ -1181,12 +1246,21 @@ func genHook(o hx.Opts, emit func(string)) {
 			emit(fmt.Sprintf("kind=secret cfg=%s n=%d calls=3", hx.Hex(cfg), n))
 		}
 	}
+	// Config.CookieSecret = []byte{} (not nil, length 0 — an unset environment variable, an empty key
+	// file): no secret is configured, every connection draws its own
+	for _, n := range []int{1, 2, 5} {
+		emit(fmt.Sprintf("kind=secret cfg=- cfgempty=1 n=%d calls=3", n))
+	}
 	// no configured secret, Config.Rand = a given stream handed out in short reads (1 … 64 bytes per
 	// Read): connections whose streams share only a short prefix
 	for _, chunk := range []int{1, 2, 3, 7, 8, 15, 16, 17, 31, 32, 33, 64} {
 		for _, pre := range []int{0, 1, 2, 8, 15} {
 			n := 2 + r.Intn(2)
-			emit(fmt.Sprintf("kind=secret cfg=- n=%d calls=3 rand=%d/%s", n, chunk, hexJoin(randStreams(r, n, pre, 48+r.Intn(32)))))
+			c := fmt.Sprintf("kind=secret cfg=- n=%d calls=3 rand=%d/%s", n, chunk, hexJoin(randStreams(r, n, pre, 48+r.Intn(32))))
+			if pre == 1 || r.Chance(20) {
+				c += " cfgempty=1"
+			}
+			emit(c)
 		}
 	}
 }
@@ -1304,6 +1378,108 @@ func udpVariant(r *hx.Rand, pa []byte) ([]byte, byte) {
 	}
 }
 
+// fragStep writes a step that sends hello hi as the given (offset, length) fragments, one datagram each.
+func fragStep(c string, hi int, ref string, frs [][2]int) string {
+	var ss []string
+	for _, f := range frs {
+		ss = append(ss, fmt.Sprintf("%d+%d", f[0], f[1]))
+	}
+	return fmt.Sprintf("%s:%d:%s:p:F%s", c, hi, ref, strings.Join(ss, "."))
+}
+
+// fragDeliveries counts how often a correct reassembly (one buffer, dropped when the message is
+// rebuilt; an unfragmented message bypasses it) delivers a message of L bytes for this series.
+func fragDeliveries(L int, frs [][2]int) int {
+	got := make([]bool, L)
+	n := 0
+	for _, f := range frs {
+		if f[0] == 0 && f[1] == L {
+			n++
+			continue
+		}
+		for i := f[0]; i < f[0]+f[1]; i++ {
+			got[i] = true
+		}
+		all := true
+		for _, g := range got {
+			all = all && g
+		}
+		if all {
+			n++
+			got = make([]bool, L)
+		}
+	}
+	return n
+}
+
+// randFragScript cuts a message of L bytes into 2-4 pieces (often with a last piece of 1-4 bytes)
+// and returns them in some order; unless `clean`, with what a lossy or hostile network adds:
+// repeats of the last piece after completion, duplicates before completion, a full
+// retransmission, overlapping and empty fragments, the whole message in one piece.
+func randFragScript(r *hx.Rand, L int, clean bool) [][2]int {
+	k := 2 + r.Intn(3)
+	cuts := map[int]bool{}
+	if r.Chance(50) {
+		cuts[L-1-r.Intn(4)] = true
+	}
+	for len(cuts) < k-1 {
+		cuts[1+r.Intn(L-1)] = true
+	}
+	var pieces [][2]int
+	prev := 0
+	for i := 1; i <= L; i++ {
+		if cuts[i] || i == L {
+			pieces = append(pieces, [2]int{prev, i - prev})
+			prev = i
+		}
+	}
+	out := append([][2]int(nil), pieces...)
+	switch r.Intn(3) {
+	case 0:
+	case 1:
+		for i, j := 0, len(out)-1; i < j; i, j = i+1, j-1 {
+			out[i], out[j] = out[j], out[i]
+		}
+	case 2:
+		for i := len(out) - 1; i > 0; i-- {
+			j := r.Intn(i + 1)
+			out[i], out[j] = out[j], out[i]
+		}
+	}
+	if clean {
+		return out
+	}
+	last := out[len(out)-1]
+	for n := r.Intn(3); n > 0; n-- {
+		switch r.Intn(7) {
+		case 0, 1, 2: // the piece that completed the message, again (and again)
+			for m := 1 + r.Intn(3); m > 0; m-- {
+				out = append(out, last)
+			}
+		case 3: // a duplicate before completion
+			i := r.Intn(len(out))
+			out = append(out[:i+1], out[i:]...)
+		case 4: // everything once more
+			out = append(out, pieces...)
+		case 5: // an overlapping or empty fragment somewhere
+			off := r.Intn(L)
+			f := [2]int{off, r.Intn(L - off + 1)}
+			if r.Chance(25) {
+				f[1] = 0
+			}
+			i := r.Intn(len(out) + 1)
+			out = append(out[:i], append([][2]int{f}, out[i:]...)...)
+		case 6: // the whole message in one piece
+			i := r.Intn(len(out) + 1)
+			out = append(out[:i], append([][2]int{{0, L}}, out[i:]...)...)
+		}
+	}
+	if len(out) > 12 {
+		out = out[:12]
+	}
+	return out
+}
+
 func genServer(o hx.Opts, emit func(string)) {
 	r := hx.NewRand(o.Seed + 77)
 	sec := []byte("verif-cookie-secret")
@@ -1390,6 +1566,36 @@ func genServer(o hx.Opts, emit func(string)) {
 		emit(serverCase(nil, []byte("10.0.0.2:5000"), []byte("10.0.0.3:5000"), []hello{g}, []string{"a:0:-:p:1", "a:0:g1:p:1", "a:0:g0:p:1", "b:0:g2:p:1", "b:0:g8:p:1", "b:0:g15:p:1", "a:0:k2:p:1"}) + fmt.Sprintf(" rand=%d/%s", chunk, hexJoin(st)))
 	}
 
+	// --- a ClientHello that arrives in fragments, the reaction observed after every datagram: the
+	// last fragment repeated after completion (26-byte datagrams that complete nothing), fragments
+	// in reverse order, duplicates before completion, a full retransmission, an overlap, the whole
+	// message between fragments; with and without (wrong) cookie; then the valid cookie in fragments
+	{
+		ls := len(small.body(nil, nil))
+		lg := len(g.body(nil, nil))
+		emit(serverCase(nil, []byte("10.0.0.2:5000"), []byte("10.0.0.3:5000"), []hello{small, g}, []string{
+			fragStep("a", 0, "-", [][2]int{{0, ls - 1}, {ls - 1, 1}, {ls - 1, 1}, {ls - 1, 1}, {ls - 1, 1}, {ls - 1, 1}, {ls - 1, 1}}),
+			fragStep("a", 1, "r", [][2]int{{lg + 32 - 1, 1}, {0, lg + 32 - 1}, {lg + 32 - 1, 1}, {0, 10}, {lg + 32 - 1, 1}}),
+			fragStep("b", 1, "-", [][2]int{{0, 20}, {0, 20}, {20, lg - 20}, {0, 20}, {20, lg - 20}, {20, lg - 20}, {10, 20}, {0, lg}, {30, lg - 30}, {0, 30}, {lg, 0}}),
+			fragStep("a", 1, "k1", [][2]int{{40, lg + 32 - 40}, {0, 40}}),
+		}))
+		emit(serverCase(sec, []byte("192.0.2.7:40001"), []byte("192.0.2.7:40002"), []hello{g}, []string{
+			fragStep("a", 0, "-", [][2]int{{0, lg - 2}, {lg - 2, 2}, {lg - 2, 2}, {lg - 2, 2}}),
+			fragStep("b", 0, "k0", [][2]int{{0, lg + 30}, {lg + 30, 2}, {lg + 30, 2}, {0, lg + 30}, {lg + 30, 2}}),
+			"a:w:60",
+			fragStep("b", 0, "k1", [][2]int{{lg + 30, 2}, {7, 9}, {0, lg + 30}}),
+		}) + " pk=uu rto=10")
+	}
+	// --- Config.CookieSecret = []byte{} (not nil, length 0): no secret is configured. A cookie forged
+	// under the empty HMAC key is refused (as first hello and later), the connections' cookies for
+	// one address and hello differ and are not interchangeable; the same with nil, and the forged
+	// cookie against a configured secret
+	for _, ce := range []string{" cfgempty=1", ""} {
+		emit(serverCase(nil, []byte("10.0.0.2:5000"), []byte("10.0.0.2:5000"), []hello{g}, []string{"a:0:e:p:1", "a:0:-:p:1", "b:0:k1:p:1", "b:0:e:p:1", "b:0:k3:p:1"}) + ce)
+		emit(serverCase(nil, []byte("192.0.2.7:40001"), []byte("192.0.2.7:40001"), []hello{g, small}, []string{"b:1:e:p:2", "a:0:-:p:1", "b:0:k1:p:1", "a:1:e:p:1", "a:0:k1:p:1"}) + ce + " pk=um")
+	}
+	emit(serverCase(sec, []byte("10.0.0.2:5000"), []byte("10.0.0.2:5000"), []hello{g}, []string{"a:0:e:p:1", "b:0:e:p:1", "b:0:k0:p:1"}))
+
 	n := 40 * o.Scale
 	if o.Tier == "thorough" {
 		n = 1500 * o.Scale
@@ -1410,6 +1616,9 @@ func genServer(o hx.Opts, emit func(string)) {
 			pb = pa[:len(pa)-1]
 		}
 		extra := ""
+		if len(cfg) == 0 && r.Chance(35) { // not nil but empty: no secret configured either
+			extra += " cfgempty=1"
+		}
 		if r.Chance(45) { // peers the way the net package reports them
 			var ka, kb byte
 			pa, ka = randUDP(r)
@@ -1503,6 +1712,8 @@ func genServer(o hx.Opts, emit func(string)) {
 			switch x := r.Intn(10); {
 			case randMode && r.Chance(30):
 				ref = fmt.Sprintf("g%d", hx.Pick(r, []int{0, 1, 1, 2, 3, 4, 8, 15}))
+			case r.Chance(8):
+				ref = "e"
 			case x < 3 || hvrs == 0:
 			case x < 5:
 				ref = fmt.Sprintf("k%d", r.Intn(hvrs))
@@ -1544,6 +1755,24 @@ func genServer(o hx.Opts, emit func(string)) {
 					// the number of replies (1 or k) is the implementation's; cookie references made
 					// later in this case only use the last one, so stop indexing here
 					break
+				}
+				continue
+			}
+			if from == "p" && r.Chance(25) {
+				// the hello in fragments, one datagram each, with repeats / re-orderings / overlaps /
+				// fragments after completion (a cookie a correct server accepts: each piece once)
+				L := len(hs[hi].body(nil, nil))
+				if ref != "-" {
+					L += 32
+				}
+				frs := randFragScript(r, L, final)
+				steps = append(steps, fragStep(c, hi, ref, frs))
+				if final {
+					break
+				}
+				for k := fragDeliveries(L, frs); k > 0; k-- {
+					hvrs++
+					owner = append(owner, own{c, hi})
 				}
 				continue
 			}
